@@ -231,5 +231,47 @@ def main(argv):
                     if [e[0] for e in log] != [0] or log[0][1] != wop:
                         ctx.violation("after a read that a fallback cache answered, a mutating operation was not applied to exactly the first cache",
                                       {"caches": n, "read": rop, "answered_by_cache": pos, "write": wop, "log": repr(log)[:200]}, tags=["history"])
+    # the list of caches is a public attribute: after it is changed (a new first cache promoted, the first one replaced), reads and writes follow
+    # the list as it is NOW - also on an object that has already been used
+    for n in (1, 2, 3):
+        for change in ("insert-first", "replace-first", "assign-new-list", "reverse"):
+            for used_before in (False, True):
+                log = []
+                caches = [Cache(i, HIT if i == n - 1 else NONE, log) for i in range(n)]
+                fc = FallbackClient(list(caches))
+                if used_before:
+                    fc.set("k", "v")
+                    fc.get("k")
+                new = Cache(9, NONE, log)
+                if change == "insert-first":
+                    fc.caches.insert(0, new)
+                    now = [new] + caches
+                elif change == "replace-first":
+                    fc.caches[0] = new
+                    now = [new] + caches[1:]
+                elif change == "assign-new-list":
+                    fc.caches = [new] + caches
+                    now = [new] + caches
+                else:
+                    fc.caches.reverse()
+                    now = caches[::-1]
+                ctx.case(("reconfigure", n, change, used_before))
+                ctx.count("reconfiguration-histories")
+                case = {"caches_before": n, "change": change, "object_used_before": used_before}
+                for wop, params in WRITES.items():
+                    del log[:]
+                    getattr(fc, wop)(**{p_: ("arg", p_) for p_ in params})
+                    if [e[0] for e in log] != [now[0].idx] or log[0][1] != wop:
+                        ctx.violation("after the list of caches was changed, a mutating operation was not applied to exactly the (new) first cache",
+                                      dict(case, write=wop, went_to=[e[0] for e in log], first_cache_now=now[0].idx), tags=["history", "reconfigure"])
+                        break
+                del log[:]
+                fc.get("k")
+                kinds_now = [c_.kind for c_ in now]
+                first = next((i for i, k_ in enumerate(kinds_now) if k_ != NONE), None)
+                want = [c_.idx for c_ in (now if first is None else now[:first + 1])]
+                if [e[0] for e in log] != want:
+                    ctx.violation("after the list of caches was changed, a read did not consult the caches in the (new) configured order",
+                                  dict(case, consulted=[e[0] for e in log], want=want), tags=["history", "reconfigure"])
     ctx.assumptions = ["caches are scripted objects; only the call log is observed"]
     ctx.finish()
